@@ -87,6 +87,13 @@ CLAIMED = {
              'for every output line len(line) <= line_width over the whole width set of the path, unless the line holds a single unbreakable item (word, or an instruction field leaving fewer than comment-width-min columns), with a warning for instruction lines.',
         note='Narrow: the bound is the corpus; skool2html, the skool file written by sna2skool, tables/lists and tab/CRLF settings are outside.',
         design='4 (C18)', technique=TECH + '; symbolic width parameters through the real text wrapper'),
+    'C13': dict(
+        text='Accelerator arithmetic only. LoadTracer.dec_a is shown equal to the DEC A: JR/JP NZ loop it replaces by induction over A from an arbitrary state (accelerated(S) == accelerated(real iteration(S)) when the loop repeats, == the real instructions '
+             'falling through otherwise; all registers incl. F, R, T, PC and memory), using the real Simulator closures; the C dec_a handler (LLVM IR) is shown equal to the Python one. For each of the 53 sampling-loop signatures in loadsample.ACCELERATORS '
+             'the signature code is executed symbolically for one trip round the loop (no edge, IN value symbolic): T delta == loop_time, R advance == loop_r_inc, counter +-1, memory untouched, back at the IN instruction.',
+        note='Outside: the fast-forward count and edge bookkeeping of _read_port, whole-tape loads, fast_load vs the ROM routine, the C read_port/advance_tape, pause/first-edge options. Assumes an absolute jump closing a loop targets the signature start; '
+             'wildcard bytes fixed to 0 (they are never executed on a trip round the loop).',
+        design='4 (C13)', technique=TECH + '; induction over the loop counter; Engine B for the C handler', engine='symx+llsym'),
 }
 NOT_APPLICABLE = {
     'C16': 'HTML link/anchor consistency is a property of generated document structure (which files and id= strings exist); there is no bounded arithmetic/data path to make symbolic - a solver encoding would be a copy of the writer (DESIGN.md section 5).',
